@@ -71,7 +71,16 @@ def gen_topology(rng, level):
                             full_timeout_ms=rng.choice([300, 500, 500, 1000, 3000]), **t))
     else:
         devices.append(_dev("bd_trough", slots, trough_ej, first_target, trough_tags, initial=balls, **t))
-    if kind != "direct":
+    chain3 = level >= 1 and not gottlieb and kind != "direct" and rng.random() < 0.2
+    if chain3:
+        # trough -> launcher -> staging device (VUK/scoop like, fed only by the launcher) -> playfield
+        kind = "pulse"
+        t = timing()
+        lane_slots = 1
+        devices.append(_dev("bd_plunger", 1, "pulse", "bd_stage", "", **t))
+        t = timing()
+        devices.append(_dev("bd_stage", rng.randint(1, 2), "pulse", "playfield", "", **t))
+    elif kind != "direct":
         t = timing()
         # a coil launcher lane may hold two balls (it can then be fed while it is still ejecting to the playfield)
         lane_slots = 2 if kind == "pulse" and rng.random() < 0.45 else 1
@@ -99,7 +108,7 @@ def gen_topology(rng, level):
             lock = _dev("bd_lock", rng.randint(1, 3), "pulse", "playfield", "", **t)
         devices.append(lock)
     vuk = None
-    if level >= 1 and kind != "direct" and rng.random() < 0.3:
+    if level >= 1 and kind != "direct" and not chain3 and rng.random() < 0.3:
         # a second source feeding the plunger lane (playfield VUK): overlapping ejects towards a 1-ball device
         t = timing()
         vuk = _dev("bd_vuk", 1, "pulse", "bd_plunger", "", **t)
@@ -125,9 +134,9 @@ def gen_topology(rng, level):
         logic["multiball2"] = {"ball_count": rng.randint(1, 2), "ball_locks": "bd_lock"}
     elif lock and rng.random() < 0.7:
         logic["ball_hold"] = {"device": "bd_lock", "balls_to_hold": rng.randint(1, lock["slots"])}
-    topo = {"balls": balls, "source": "bd_trough" if kind == "direct" else "bd_plunger",
+    topo = {"balls": balls, "source": "bd_trough" if kind == "direct" else ("bd_stage" if chain3 else "bd_plunger"),
             "balls_per_game": rng.randint(1, 3), "devices": devices, "logic": logic,
-            "kind": ("gt_" if gottlieb else "") + kind + ("2" if kind == "pulse" and lane_slots == 2 else "") +
+            "kind": ("gt_" if gottlieb else "") + ("chain3_" if chain3 else "") + kind + ("2" if kind == "pulse" and lane_slots == 2 else "") +
             ("+drain" if has_drain else "") + ("+lock" + (lock["counter"][0] if lock["ejector"] != "hold" else "h") if lock else "") +
             ("+en" if trough_ej == "enable" else "") + ("+vuk" if vuk else "") + ("+mbl" if mblock else "")}
     return topo
@@ -180,6 +189,10 @@ def gen_ops(rng, topo, n_ops, rests):
     elif pulse_devs and rng.random() < 0.12:
         ops += coil_test() + [["rest"]]
     ops.append(["start"])
+    if any(d["name"] == "bd_stage" for d in topo["devices"]) and rng.random() < 0.7:
+        # a second ball is requested while the ball of the game start is on its way through the chain
+        ops.append(["ev", rng.choice(["ev_add_ball", "ev_req_stage"]), rng.choice([0.5, 1.0, 1.5, 2.0, 3.0, 4.0])])
+        ops.append(["wait", 25.0])
     if "multiball_lock" in logic:
         kinds_extra = ["ev:ev_mb2_start"]
         if rng.random() < 0.7:
@@ -196,7 +209,9 @@ def gen_ops(rng, topo, n_ops, rests):
         kinds += ["lock"] * 4
     if "bd_vuk" in names:
         kinds += ["vuk"] * 3
-    if "bd_plunger" in names:
+    if "bd_plunger" in names and "bd_stage" in names:
+        kinds += ["ev:ev_req_plunger"]       # (the launcher of a three-device chain is not reachable from the playfield)
+    elif "bd_plunger" in names:
         kinds += ["ev:ev_req_plunger", "lane"]     # lane: a loose ball rolls back into the plunger lane
     if "multiball" in logic:
         kinds += ["ev:ev_mb_start", "ev:ev_mb_add", "ev:ev_mb_add", "ev:ev_mb_stop"]
@@ -207,11 +222,14 @@ def gen_ops(rng, topo, n_ops, rests):
     bursts = ["double_request"]     # a second (third) manual request while the first eject is still running
     if gottlieb:
         bursts.append("gt_fill")
+    if "bd_stage" in names:
+        bursts += ["chain_double", "chain_double"]   # a further request while the launcher's ball is in flight
+        kinds += ["ev:ev_req_stage"]
     if "multiball_lock" in logic:
         bursts += ["lock_mb", "lock_mb"]    # lock two balls, then start both multiballs back to back
     if "multiball" in logic and "ball_save" in logic:
         bursts.append("mb_save")        # several balls in play, ball save active, drains close together
-    if "bd_plunger" in names:
+    if "bd_plunger" in names and "bd_stage" not in names:
         bursts.append("held_lane")      # a request whose eject attempt may be held + a ball rolling into the lane
     rest_at = set(rng.sample(range(2, n_ops + 2), min(rests, n_ops))) if n_ops else set()
     pure_mech = any(d["name"] == "bd_plunger" and d["ejector"] == "mech" for d in topo["devices"])
@@ -231,6 +249,12 @@ def gen_ops(rng, topo, n_ops, rests):
                 ops.append(["ev", "ev_add_ball", rng.choice(DTS)])
                 for _ in range(rng.randint(1, 2)):
                     ops.append(["ev", "ev_add_ball", rng.choice([0.3, 1.5, 3.0, 5.0])])
+            elif b == "chain_double":
+                ops.append(["ev", rng.choice(["ev_add_ball", "ev_req_stage"]), rng.choice(DTS)])
+                for _ in range(rng.randint(1, 2)):
+                    ops.append(["ev", rng.choice(["ev_add_ball", "ev_req_stage", "ev_req_plunger"]),
+                                rng.choice([0.3, 0.6, 1.0, 1.5, 2.0, 3.0, 4.0, 6.0])])
+                ops.append(["wait", 25.0])
             elif b == "gt_fill":
                 ops += gt_fill()
             elif b == "lock_mb":
@@ -289,6 +313,11 @@ def gen_phys(rng, topo, fault_level):
         phys["plunge_delay"] = [5.0, 40.0]
     if fault_level > 0:
         for d in topo["devices"]:
+            if d["name"] == "bd_plunger" and d["target"] == "bd_stage" and rng.random() < 0.7:
+                # the launcher's kick towards the staging device is weak: ball falls back / arrives late
+                phys["faults"][d["name"]] = [rng.choice(["back_early", "back_late", "late", "ok"])
+                                             for _ in range(rng.randint(2, 6))]
+                continue
             if d["name"] == "bd_plunger" and d["slots"] == 2 and rng.random() < 0.6:
                 # the launcher's first kicks are too weak / the ball falls back
                 phys["faults"][d["name"]] = [rng.choice(["weak", "back_early"]) for _ in range(rng.randint(1, 2))] + \
@@ -345,6 +374,7 @@ class Monitors:
         self.coil_times = {n: [] for n in self.devices}
         self._depth = 0
         self._replacement = 0
+        self._fallback_seen = 0
         self._last_t = None
         self._same_t = 0
         self._forced_time = 0.0
@@ -607,6 +637,14 @@ class Monitors:
         nr = self.world.room_checks
         if nr != self.clauses["no_room"]:
             self.clauses["no_room"] = nr
+        while self._fallback_seen < len(self.world.fallback_fire):
+            f = dict(self.world.fallback_fire[self._fallback_seen])
+            self._fallback_seen += 1
+            tstate = self.devices[f["target"]]._state
+            # the slot of a ball that left but is not confirmed yet must stay blocked: it may come back (and does here)
+            if tstate in ("ball_left", "failed_confirm"):
+                f["target_state"] = tstate
+                self.violation("C04", "no_room", "fired_towards_device_whose_unconfirmed_ball_falls_back", f)
         if self.world.full_fire:
             f = self.world.full_fire[0]
             sig = "two_ejects_in_flight_towards_last_free_slot" if f["inbound_by_mpf"] else \
